@@ -94,8 +94,14 @@ func (d *decoder) decodeSymbolDictionary(hdr *segmentHeader, data []byte) ([]*bi
 	}
 
 	// collect input symbols from referred segments
+	// (a segment that is listed more than once contributes its symbols once)
 	var inputSymbols []*bitmap.Bitmap
+	seenRef := make(map[uint32]bool)
 	for _, refNum := range hdr.RefSegments {
+		if seenRef[refNum] {
+			continue
+		}
+		seenRef[refNum] = true
 		if ref, ok := d.segments[refNum]; ok && ref.symbols != nil {
 			inputSymbols = append(inputSymbols, ref.symbols...)
 		}
